@@ -4,7 +4,7 @@
 for triple in "$@"; do
   set -- $triple; TAG=$1; ID=$2; P=$3
   echo "=== $TAG -> $ID ($P)"
-  /verif/tools/confirm_seed.sh $TAG $ID 2>&1 | grep -E "test result|stored|apply" | tr '\n' ' '; echo
+  /verif/tools/confirm_seed.sh $TAG $ID 2>&1 | grep -E "test result|stored|apply" | sed "s/; 0 ignored.*//" | tr '\n' ' '; echo
   git -C /repo apply /verif/seeded/$ID/patch.diff || { echo "patch does not apply to /repo"; continue; }
   if [ -d /tmp/vsnap ]; then
     (cd /tmp/vsnap/vcheck && CARGO_TARGET_DIR=/tmp/vsnap_target cargo build --release --offline 2>&1 | grep -E "^error")
